@@ -2,7 +2,8 @@
    subscribe_only_to, unsubscribe, notify_subscribers, get_subscribers,
    get_subscriptions, kill_resource, deregister, _kill_resource,
    _check_for_cycles) and of the asyncio.LifoQueue operations it uses
-   (put_nowait / get_nowait / task_done / shutdown / empty, Python 3.13).
+   (put_nowait / get_nowait / task_done / shutdown / empty / full, Python 3.13),
+   unbounded or bounded.
    Proof-free and executable; proofs are in proofs/Registry_proofs.v.
 
    Resources are natural numbers.
@@ -69,23 +70,37 @@ Inductive event := EKill | ERes (notifier time : nat).
 
 (* [items]: head = top of the stack (the element get_nowait returns next);
    Python's list is the reverse.  [unfinished] is Queue._unfinished_tasks.
-   maxsize = 0, so QueueFull never occurs. *)
-Record queue := Q { items : list event; shut : bool; unfinished : nat }.
+   [cap] is Queue.maxsize: 0 = unbounded (the default queue register creates);
+   n > 0 = a bounded queue the caller passed to register(resource, queue=...). *)
+Record queue := Q { items : list event; shut : bool; unfinished : nat; cap : nat }.
 
-Definition new_queue : queue := Q [] false 0.
+Definition new_queue (c : nat) : queue := Q [] false 0 c.
 
-(* put_nowait on a queue that is not shut down *)
+(* Queue.full(): maxsize > 0 and qsize() >= maxsize *)
+Definition full (q : queue) : bool :=
+  match cap q with
+  | 0 => false
+  | S _ => Nat.leb (cap q) (List.length (items q))
+  end.
+
+(* what a successful put_nowait does *)
 Definition push (e : event) (q : queue) : queue :=
-  Q (e :: items q) (shut q) (S (unfinished q)).
+  Q (e :: items q) (shut q) (S (unfinished q)) (cap q).
 
-(* try: q.put_nowait(e) except (QueueFull, QueueShutDown): pass *)
+(* try: q.put_nowait(e) except (QueueFull, QueueShutDown): pass
+   put_nowait raises QueueShutDown when shut down, else QueueFull when full *)
 Definition put_quiet (e : event) (q : queue) : queue :=
-  if shut q then q else push e q.
+  if shut q then q else if full q then q else push e q.
 
 (* _kill_resource's effect on the queue object:
-   try: put_nowait(Kill()) except QueueShutDown: return ; queue.shutdown() *)
+     try: put_nowait(Kill())
+     except QueueShutDown: return queue      (already dead: nothing more)
+     except QueueFull: pass                  (no room for the marker ...)
+     queue.shutdown()                        (... but shut down all the same) *)
 Definition kill_q (q : queue) : queue :=
-  if shut q then q else Q (EKill :: items q) true (S (unfinished q)).
+  if shut q then q
+  else if full q then Q (items q) true (unfinished q) (cap q)
+  else Q (EKill :: items q) true (S (unfinished q)) (cap q).
 
 (* deregister's drain loop
      while not queue.empty(): queue.get_nowait(); queue.task_done()
@@ -181,13 +196,16 @@ Definition notify (n t : nat) (s : state) : state :=
   St (subs s) (watches s) (queues s)
      (fold_left (fun h q => upd q (put_quiet (ERes n t)) h) (active_queues n s) (heap s)).
 
-(* register (default queue only); [t] is what time.monotonic() returns *)
-Definition register (r t : nat) (s : state) : state * result :=
+(* register; [t] is what time.monotonic() returns; [c] = 0: no queue passed
+   (a fresh unbounded LifoQueue is created), [c] > 0: the caller passes its own
+   fresh asyncio.LifoQueue(maxsize=c).  For an already registered resource the
+   passed queue is ignored. *)
+Definition register (r t c : nat) (s : state) : state * result :=
   match lookup r (queues s) with
   | Some q => (s, RQueue q)
   | None =>
       let q := length (heap s) in
-      (notify r t (St (subs s) (watches s) ((r, q) :: queues s) (heap s ++ [new_queue])),
+      (notify r t (St (subs s) (watches s) ((r, q) :: queues s) (heap s ++ [new_queue c])),
        RQueue q)
   end.
 
@@ -244,7 +262,7 @@ Definition kill_resource (r : nat) (s : state) : state * result :=
 
 Definition drain_q (q : queue) : queue * bool :=
   match drain (items q) (unfinished q) with
-  | (its, unf, ok) => (Q its (shut q) unf, ok)
+  | (its, unf, ok) => (Q its (shut q) unf (cap q), ok)
   end.
 
 Definition deregister (r t : nat) (s : state) : state * result :=
@@ -280,17 +298,17 @@ Definition get_nowait (done : bool) (q : nat) (s : state) : state * result :=
           if done then
             match unfinished qu with
             | 0 => (St (subs s) (watches s) (queues s)
-                       (upd q (fun _ => Q rest (shut qu) 0) (heap s)), Raised ValueError)
+                       (upd q (fun _ => Q rest (shut qu) 0 (cap qu)) (heap s)), Raised ValueError)
             | S u => (St (subs s) (watches s) (queues s)
-                         (upd q (fun _ => Q rest (shut qu) u) (heap s)), RItem e)
+                         (upd q (fun _ => Q rest (shut qu) u (cap qu)) (heap s)), RItem e)
             end
           else (St (subs s) (watches s) (queues s)
-                   (upd q (fun _ => Q rest (shut qu) (unfinished qu)) (heap s)), RItem e)
+                   (upd q (fun _ => Q rest (shut qu) (unfinished qu) (cap qu)) (heap s)), RItem e)
       end
   end.
 
 Inductive op :=
-| ORegister (r t : nat)
+| ORegister (r t c : nat)
 | OSubscribe (sb r : nat)
 | OSubscribeOnly (sb : nat) (rs : list nat)
 | OUnsubscribe (u r : nat)
@@ -304,7 +322,7 @@ Inductive op :=
 
 Definition step (o : op) (s : state) : state * result :=
   match o with
-  | ORegister r t => register r t s
+  | ORegister r t c => register r t c s
   | OSubscribe sb r => subscribe sb r s
   | OSubscribeOnly sb rs => subscribe_only_to sb rs s
   | OUnsubscribe u r => unsubscribe u r s
